@@ -60,6 +60,40 @@ def handle (req : J) : Except String J := do
     let o ← decOracles (fieldD req "orc" (Lean.Json.mkObj []))
     let samples ← (← asArr (← field req "in")).toList.mapM decJson
     pure (resJ encTy (generate cfg o samples))
+  | "pipeline" => do
+    let cfg ← decCfg (← field req "cfg")
+    let orc := fieldD req "orc" (Lean.Json.mkObj [])
+    let o : PipeOracles := { gen := ← decOracles orc, names := ← decNameOracles orc }
+    let cmps ← decCmps (← field req "cmps")
+    let inputs ← (← asArr (← field req "in")).toList.mapM (fun e => do
+      match (← asArr e).toList with
+      | [.str name, .arr samples] => do pure (name, ← samples.toList.mapM decJson)
+      | _ => err "bad input")
+    let encE {α} (enc : α → J) : Except PyErr α → J := fun r => match r with
+      | .ok a => enc a
+      | .error e => Lean.Json.mkObj [("err", .str e.toString)]
+    match pipeline cfg o cmps inputs with
+    | .error e => pure (errJ e)
+    | .ok r =>
+      pure (okJ (Lean.Json.mkObj [
+        ("process", encGraph r.afterProcess),
+        ("merge", encGraph r.afterMerge),
+        ("replaces", encRepl r.replaces),
+        ("named", encGraph r.named),
+        ("flat", encE encStrs (composeFlat r.named)),
+        ("nested", encE (fun (p : List Node × List (String × String)) =>
+            Lean.Json.arr #[.arr (p.1.map encNode).toArray,
+              .arr (p.2.map (fun (a, b) => Lean.Json.arr #[.str a, .str b])).toArray]) (composeNested r.named))]))
+  | "closure" => do
+    let n ← asNat (← field req "n")
+    let edges ← (← asArr (← field req "edges")).toList.mapM (fun e => do
+      match (← asArr e).toList with
+      | [a, b] => do pure ((← asNat a), (← asNat b))
+      | _ => err "bad edge")
+    let sim : Nat → Nat → Bool := fun a b => edges.contains (a, b) || edges.contains (b, a)
+    pure (match Closure.mergeGroups sim n with
+      | some gs => okJ (.arr (gs.map (fun g => Lean.Json.arr (g.map (fun (x : Nat) => Lean.Json.num (Lean.JsonNumber.fromNat x))).toArray)).toArray)
+      | none => errJ .outOfFuel)
   | _ => err s!"unknown op {op}"
 
 partial def loop (h : IO.FS.Stream) (out : IO.FS.Stream) : IO Unit := do
